@@ -41,6 +41,38 @@ PROPS.update({
                       "transaction, and the two-party sentence (sender reports success only if its receiver did).",
         "level_note": VERUS_NOTE + "finalize_receive, is_file_transfer, send_indication are stubs (bodies not verified).",
     },
+    "C05": {
+        "title": "Every well-formed PDU survives encode then decode unchanged",
+        "kani": ["c05_fixed", "c05_header", "c05_var", "c05_userops", "c05_report", "c05_wrap"],
+        "level": "other",
+        "technique": "Kani/CBMC proof harnesses over the real codec, one per concrete shape, value fields fully symbolic",
+        "design_ref": "DESIGN.md 4/C05, kani/README.md",
+        "level_text": "Per concrete shape (every length-determining discrete choice enumerated: identifier widths 1/2/4/8, file-size flag, CRC flag, "
+                      "directive / TLV / message-type code, string and list lengths) a Kani harness proves for ALL values of the remaining fields (full-width "
+                      "symbolic) that encode(x).len() == encoded_len(x) == the wire-format length, every type/length octet has its wire-format value, and "
+                      "decode(encode(x)) == Ok(x). Families c05_fixed, c05_header, c05_report are COMPLETE (no bound); c05_var, c05_userops, c05_wrap are "
+                      "BOUNDED in string/list length (quick: lengths 0..2; thorough: 3, 255-octet bodies, 63-octet segment metadata). Types with private "
+                      "fields (SFORequest, SFOReport, ProxySegmentationControl) are proved from the decoder side.",
+        "level_note": "Trusted: Kani 0.68 + CBMC 6.11; the UTF-8 validator stub (cross-checked natively); file names ASCII in the constructive harnesses; "
+                      "string equality of file names; the generator's model of the wire format (gen.py), itself checked by the decode-side harnesses. "
+                      "Bounded families are labelled bounded in the evidence and are not counted as proofs for all lengths.",
+    },
+    "C06": {
+        "title": "Decoding arbitrary bytes never panics and what it accepts is canonical",
+        "kani": ["c06_arith", "c06_types", "c06_canon_eof", "c06_bytes_eof", "c06_canon_nak", "c06_bytes_nak", "c06_canon_filedata", "c06_bytes_filedata",
+                 "c06_canon_small", "c06_dispatch", "c06_canon_finished", "c06_bytes_finished", "c06_canon_metadata", "c06_bytes_metadata"],
+        "level": "other",
+        "technique": "Kani/CBMC proof harnesses: all-free inputs on every arithmetic site (complete), per-class templates for no-panic and canonicity (bounded)",
+        "design_ref": "DESIGN.md 4/C06, kani/README.md",
+        "level_text": "COMPLETE: c06_arith - PDUHeader::decode over all 2^16 length fields x CRC flag x all first/fourth octets, VariableID::decode and "
+                      "read_length_value_pair over all 256 length octets, and every fixed-layout leaf decoder on completely free octets and every truncation: "
+                      "returns Ok or Err, no failed arithmetic / bounds / unwrap check, unwinding assertions on (termination of the loops for these sizes). "
+                      "BOUNDED: per PDU class (type/length octets concrete, values free; lengths 0..2) decode never panics on well-formed, truncated and "
+                      "malformed layouts, and whatever it accepts re-encodes (length field recomputed) to a PDU that decodes to the same value. "
+                      "The allocation bound is structural: every allocation is sized by a u8 or u16 length field.",
+        "level_note": "Trusted: Kani 0.68 + CBMC 6.11; UTF-8 validator stub; compositional reading of PDU::decode (header ++ slice ++ dispatch ++ leaf decoder) - "
+                      "whole-datagram harnesses with free type octets are beyond CBMC here (kani/README.md). Finished / Metadata classes run in the thorough tier only.",
+    },
     "C07": {
         "title": "Sender transmits exactly the source file: right bytes, offsets, sizes, checksum",
         "verus": [("send", ["O-C07-"])],
